@@ -46,6 +46,22 @@ def main():
     except common.Infra as e:
         print("INFRA: %s" % e)
         sys.exit(2)
+    except (ImportError, AttributeError) as e:
+        import engine
+        lost = engine.hook_lost(e)
+        if not lost:
+            traceback.print_exc()
+            print("INFRA: harness crashed")
+            sys.exit(2)
+        # an internal name of the library which the materialisers are built on is gone: the implementation side of the
+        # correspondence cannot even be loaded.  No input can be searched for: the property is no longer shown to hold.
+        path = os.path.join(common.VERIF, "replays", pid, "correspondence_lost.json")
+        os.makedirs(os.path.dirname(path), exist_ok=True)
+        with open(path, "w") as fh:
+            json.dump({"property": pid, "correspondence": "the materialisers of harness/props/%s.py cannot be loaded: %s" % (pid, lost),
+                       "traceback": traceback.format_exc()[-2000:]}, fh, indent=1)
+        print("VIOLATION property=%s replay=%s no-failing-input-found" % (pid, path))
+        sys.exit(1)
     except Exception:  # noqa: B902
         traceback.print_exc()
         print("INFRA: harness crashed")
